@@ -60,25 +60,25 @@ theorem stmt_imm_mono (a : A) (setImm : Bool) (sv : Stmt) (f : Nat → Bool) (h 
     simp [stmt, execStmt, h0, hf1, hf2]
 
 /-- `close(rollback=True)` from any phase in which the connection can be: ends outside a transaction -/
-theorem closeRb_good (a : A) (si : Bool) (f : Nat → Bool) (ph : Phase) (h1 : a.conn = true → a.pool = true)
+theorem closeRb_good (a : A) (si ddl : Bool) (f : Nat → Bool) (ph : Phase) (h1 : a.conn = true → a.pool = true)
     (hph : (a.conn = true → ph = .auto ∨ ph = .txn) ∧ (a.conn = false → ph = phaseOf { a with inTx := false })) :
-    runL ph (closeRb a si f).evs = some (phaseOf (closeRb a si f).a) ∧ Inv (closeRb a si f).a ∧
-    (closeRb a si f).a.inTx = false ∧ (closeRb a si f).a.conn = false := by
+    runL ph (closeRb a si ddl f).evs = some (phaseOf (closeRb a si ddl f).a) ∧ Inv (closeRb a si ddl f).a ∧
+    (closeRb a si ddl f).a.inTx = false ∧ (closeRb a si ddl f).a.conn = false := by
   obtain ⟨pool, conn, inTx, imm⟩ := a
   simp only at h1 hph
   cases conn
   · have := hph.2 rfl; subst this
     cases pool <;> simp [closeRb, runL, phaseOf, Inv]
   · have hp := h1 rfl; subst hp
-    rcases hph.1 rfl with rfl | rfl <;> cases h0 : f 0 <;> cases hf1 : f 1 <;>
+    rcases hph.1 rfl with rfl | rfl <;> cases ddl <;> cases h0 : f 0 <;> cases hf1 : f 1 <;>
       simp [closeRb, runL, next, phaseOf, Inv, h0, hf1]
 
-theorem release_good (a : A) (si : Bool) (f : Nat → Bool) (hI : Inv a) (hin : a.inTx = false) :
-    Good a (release a si f) := by
+theorem release_good (a : A) (si ddl : Bool) (f : Nat → Bool) (hI : Inv a) (hin : a.inTx = false) :
+    Good a (release a si ddl f) := by
   obtain ⟨pool, conn, inTx, imm⟩ := a
   obtain ⟨h1, h2⟩ := hI
   simp only at h1 h2 hin; subst hin
-  cases pool <;> cases conn <;> simp at h1 <;> cases h0 : f 0 <;>
+  cases pool <;> cases conn <;> simp at h1 <;> cases ddl <;> cases h0 : f 0 <;>
     simp [Good, Inv, release, runL, next, phaseOf, h0]
 
 theorem good_seq {a : A} {r r2 : R} (h1 : Good a r) (h2 : Good r.a r2) :
@@ -86,9 +86,9 @@ theorem good_seq {a : A} {r r2 : R} (h1 : Good a r) (h2 : Good r.a r2) :
   refine ⟨?_, h2.2⟩
   rw [runL_append, h1.1]; simpa using h2.1
 
-theorem closeRb_inv (a : A) (si : Bool) (f : Nat → Bool) (hI : Inv a) :
-    Good a (closeRb a si f) ∧ (closeRb a si f).a.inTx = false ∧ (closeRb a si f).a.conn = false := by
-  have := closeRb_good a si f (phaseOf a) hI.1 ⟨?_, ?_⟩
+theorem closeRb_inv (a : A) (si ddl : Bool) (f : Nat → Bool) (hI : Inv a) :
+    Good a (closeRb a si ddl f) ∧ (closeRb a si ddl f).a.inTx = false ∧ (closeRb a si ddl f).a.conn = false := by
+  have := closeRb_good a si ddl f (phaseOf a) hI.1 ⟨?_, ?_⟩
   · exact ⟨⟨this.1, this.2.1⟩, this.2.2⟩
   · intro hc
     have hp := hI.1 hc
@@ -131,8 +131,8 @@ theorem cacheFlush_good (opens : Entry → Bool) (a : A) (ws : List (Entry × Li
     have := (flushLoop_good opens ws { a with imm := a.imm || true } f hI (by simp)).1
     exact ⟨this.1, this.2⟩
 
-theorem cacheCommit_good (a : A) (si : Bool) (f : Nat → Bool) (hI : Inv a) :
-    Good a (cacheCommit a si f) ∧ (cacheCommit a si f).a.inTx = false := by
+theorem cacheCommit_good (a : A) (si ddl : Bool) (f : Nat → Bool) (hI : Inv a) :
+    Good a (cacheCommit a si ddl f) ∧ (cacheCommit a si ddl f).a.inTx = false := by
   unfold cacheCommit
   by_cases hin : a.inTx = true
   · rw [if_pos hin]
@@ -141,7 +141,7 @@ theorem cacheCommit_good (a : A) (si : Bool) (f : Nat → Bool) (hI : Inv a) :
     have hph : phaseOf a = .txn := by simp [phaseOf, hp, hin]
     by_cases h0 : f 0 = true
     · rw [if_pos h0]
-      have := closeRb_good { a with inTx := false } si (fun k => f (k + 1)) .txn (fun _ => hp)
+      have := closeRb_good { a with inTx := false } si ddl (fun k => f (k + 1)) .txn (fun _ => hp)
         ⟨fun _ => Or.inr rfl, fun h => by simp [hc] at h⟩
       refine ⟨⟨?_, this.2.1⟩, this.2.2.1⟩
       simp only [runL, hph, next]
@@ -153,21 +153,127 @@ theorem cacheCommit_good (a : A) (si : Bool) (f : Nat → Bool) (hI : Inv a) :
   · rw [if_neg hin]
     exact ⟨⟨by simp [runL, phaseOf], hI⟩, by simpa using hin⟩
 
-theorem coreCommit_good (opens : Entry → Bool) (a : A) (si : Bool) (ws : List (Entry × List RowWrite)) (f : Nat → Bool)
-    (hI : Inv a) : Good a (coreCommit opens true a si ws f) ∧ (coreCommit opens true a si ws f).a.inTx = false := by
+theorem coreCommit_good (opens : Entry → Bool) (a : A) (si ddl : Bool) (ws : List (Entry × List RowWrite)) (f : Nat → Bool)
+    (hI : Inv a) : Good a (coreCommit opens true a si ddl ws f) ∧ (coreCommit opens true a si ddl ws f).a.inTx = false := by
   have h1 := cacheFlush_good opens a ws f hI
   unfold coreCommit
   dsimp only
   by_cases hok : (cacheFlush opens true a ws f).ok = true
   · rw [if_neg (by simp [hok])]
-    have h2 := cacheCommit_good (cacheFlush opens true a ws f).a si (fun k => f (k + (cacheFlush opens true a ws f).used)) h1.2
+    have h2 := cacheCommit_good (cacheFlush opens true a ws f).a si ddl (fun k => f (k + (cacheFlush opens true a ws f).used)) h1.2
     exact ⟨good_seq h1 h2.1, h2.2⟩
   · rw [if_pos (by simpa using hok)]
-    have h2 := closeRb_inv (cacheFlush opens true a ws f).a si (fun k => f (k + (cacheFlush opens true a ws f).used)) h1.2
+    have h2 := closeRb_inv (cacheFlush opens true a ws f).a si ddl (fun k => f (k + (cacheFlush opens true a ws f).used)) h1.2
     exact ⟨good_seq h1 h2.1, h2.2.1⟩
 
-theorem runOp_good (opens : Entry → Bool) (hO : ∀ e, e.direct = true → opens e = true) (si : Bool) (a : A) (op : Op)
-    (f : Nat → Bool) (hI : Inv a) (hwf : op.wf = true) : Good a (runOp opens true si a op f) := by
+/-! ### a statement with an auto-flush in front of it -/
+
+theorem prep_good (a : A) (f : Nat → Bool) (hI : Inv a) :
+    Good a (prep a f) ∧ ((prep a f).ok = true → (prep a f).a.conn = true ∧ ((prep a f).a.imm = true → (prep a f).a.inTx = true)) := by
+  obtain ⟨pool, conn, inTx, imm⟩ := a
+  obtain ⟨h1, h2⟩ := hI
+  simp only at h1 h2
+  cases pool <;> cases conn <;> cases inTx <;> cases imm <;> simp at h1 h2 <;>
+    cases h0 : f 0 <;> cases hf1 : f 1 <;>
+    simp [Good, Inv, prep, phaseOf, runL, next, h0, hf1]
+
+/-- with the connection present, a statement keeps it and never leaves an open transaction -/
+theorem stmt_keeps (a : A) (setImm : Bool) (sv : Stmt) (f : Nat → Bool) (hc : a.conn = true) (hp : a.pool = true) :
+    (stmt a setImm sv f).a.conn = true ∧ (a.inTx = true → (stmt a setImm sv f).a.inTx = true) := by
+  obtain ⟨pool, conn, inTx, imm⟩ := a
+  simp only at hc hp; subst hc; subst hp
+  cases inTx <;> cases imm <;> cases setImm <;> cases h0 : f 0 <;> cases hf1 : f 1 <;>
+    simp [stmt, execStmt, h0, hf1]
+
+theorem flushLoop_keeps (opens : Entry → Bool) (ws : List (Entry × List RowWrite)) : ∀ (a : A) (f : Nat → Bool), Inv a →
+    a.conn = true → a.imm = true →
+    (flushLoop opens a ws f).a.conn = true ∧ (a.inTx = true → (flushLoop opens a ws f).a.inTx = true) := by
+  induction ws with
+  | nil => intro a f _ hc _; exact ⟨hc, fun h => h⟩
+  | cons p rest ih =>
+    intro a f hI hc him
+    obtain ⟨e, w⟩ := p
+    have hk := stmt_keeps a (opens e) (.write w) f hc (hI.1 hc)
+    have hg := stmt_good a (opens e) (.write w) f hI (fun _ => by simp [him]) (Or.inr ⟨w, rfl⟩)
+    have hm := stmt_imm_mono a (opens e) (.write w) f him
+    unfold flushLoop
+    dsimp only
+    split
+    · exact hk
+    · have h2 := ih (stmt a (opens e) (.write w) f).a (fun k => f (k + (stmt a (opens e) (.write w) f).used)) hg.2 hk.1 hm
+      exact ⟨h2.1, fun h => h2.2 (hk.2 h)⟩
+
+theorem cacheFlush_keeps (opens : Entry → Bool) (a : A) (ws : List (Entry × List RowWrite)) (f : Nat → Bool) (hI : Inv a)
+    (hc : a.conn = true) (himp : a.imm = true → a.inTx = true) :
+    (cacheFlush opens true a ws f).a.conn = true ∧ (a.inTx = true → (cacheFlush opens true a ws f).a.inTx = true) ∧
+    ((cacheFlush opens true a ws f).a.imm = true → (cacheFlush opens true a ws f).a.inTx = true) := by
+  unfold cacheFlush
+  split
+  · exact ⟨hc, fun h => h, himp⟩
+  · have := flushLoop_keeps opens ws { a with imm := a.imm || true } f hI hc (by simp)
+    refine ⟨this.1, this.2, ?_⟩
+    dsimp only
+    intro hi
+    cases hin : (flushLoop opens { a with imm := a.imm || true } ws f).a.inTx with
+    | true => rfl
+    | false =>
+      rw [hin] at hi
+      simp only [Bool.false_eq_true, if_false] at hi
+      have := this.2 (himp hi)
+      rw [hin] at this; exact this
+
+theorem exec_good (a : A) (sv : Stmt) (b : Bool) (hI : Inv a) (hc : a.conn = true) (himp : a.imm = true → a.inTx = true)
+    (hs : sv = .read ∨ ((∃ ws, sv = .write ws) ∧ a.inTx = true)) : Good a (execStmt [] a sv b 0) := by
+  obtain ⟨pool, conn, inTx, imm⟩ := a
+  obtain ⟨h1, h2⟩ := hI
+  simp only at h1 h2 hc himp; subst hc
+  have hp : pool = true := h1 rfl
+  subst hp
+  rcases hs with rfl | ⟨⟨ws, rfl⟩, hin⟩
+  · cases inTx <;> cases imm <;> cases b <;> simp at himp <;> simp [Good, Inv, execStmt, phaseOf, runL, next]
+  · simp only at hin; subst hin
+    cases imm <;> cases b <;> simp [Good, Inv, execStmt, phaseOf, runL, next]
+
+theorem autoFlush_good (opens : Entry → Bool) (a : A) (setImm : Bool) (ws : List (Entry × List RowWrite)) (sv : Stmt)
+    (f : Nat → Bool) (hI : Inv a) (hs : sv = .read ∨ ((∃ w, sv = .write w) ∧ setImm = true)) :
+    Good a (autoFlushStmt opens true a setImm ws sv f) := by
+  have h1 := prep_good { a with imm := a.imm || setImm } f hI
+  have hph : phaseOf { a with imm := a.imm || setImm } = phaseOf a := rfl
+  unfold autoFlushStmt
+  dsimp only
+  by_cases hok : (prep { a with imm := a.imm || setImm } f).ok = true
+  · rw [if_neg (by simp [hok])]
+    obtain ⟨hc, himp⟩ := h1.2 hok
+    have h2 := cacheFlush_good opens (prep { a with imm := a.imm || setImm } f).a ws
+      (fun k => f (k + (prep { a with imm := a.imm || setImm } f).used)) h1.1.2
+    have hk := cacheFlush_keeps opens (prep { a with imm := a.imm || setImm } f).a ws
+      (fun k => f (k + (prep { a with imm := a.imm || setImm } f).used)) h1.1.2 hc himp
+    have h12 := good_seq (a := a) ⟨by rw [← hph]; exact h1.1.1, h1.1.2⟩ h2
+    split
+    · exact h12
+    · have h3 : Good (cacheFlush opens true (prep { a with imm := a.imm || setImm } f).a ws
+          (fun k => f (k + (prep { a with imm := a.imm || setImm } f).used))).a
+          (execStmt [] (cacheFlush opens true (prep { a with imm := a.imm || setImm } f).a ws
+          (fun k => f (k + (prep { a with imm := a.imm || setImm } f).used))).a sv
+          (f ((prep { a with imm := a.imm || setImm } f).used + (cacheFlush opens true (prep { a with imm := a.imm || setImm } f).a ws
+          (fun k => f (k + (prep { a with imm := a.imm || setImm } f).used))).used)) 0) := by
+        apply exec_good _ _ _ h2.2 hk.1 hk.2.2
+        rcases hs with h | ⟨hw, hsi⟩
+        · exact Or.inl h
+        · subst hsi
+          have himm : (prep { a with imm := a.imm || true } f).a.imm = true := by
+            obtain ⟨pool, conn, inTx, imm⟩ := a
+            revert hok
+            cases pool <;> cases conn <;> cases inTx <;> cases imm <;> cases h0 : f 0 <;> cases hf1 : f 1 <;>
+              simp [prep, h0, hf1]
+          exact Or.inr ⟨hw, hk.2.1 (himp himm)⟩
+      refine ⟨?_, h3.2⟩
+      rw [runL_append, h12.1]; simpa using h3.1
+  · rw [if_pos (by simpa using hok)]
+    exact ⟨by rw [← hph]; exact h1.1.1, h1.1.2⟩
+
+theorem runOp_good (opens : Entry → Bool) (hO : ∀ e, e.direct = true → opens e = true) (si ddl : Bool) (a : A) (op : Op)
+    (f : Nat → Bool) (hI : Inv a) (hwf : op.wf = true) : Good a (runOp opens true si ddl a op f) := by
   cases op with
   | query => exact stmt_good a false .read f hI (fun ⟨ws, h⟩ => by cases h) (Or.inl rfl)
   | lockQuery => exact stmt_good a true .read f hI (fun ⟨ws, h⟩ => by cases h) (Or.inl rfl)
@@ -175,18 +281,22 @@ theorem runOp_good (opens : Entry → Bool) (hO : ∀ e, e.direct = true → ope
     have := hO e hwf
     exact stmt_good a (opens e) (.write ws) f hI (fun _ => by simp [this]) (Or.inr ⟨ws, rfl⟩)
   | flush ws => exact cacheFlush_good opens a ws f hI
-  | commit ws => exact (coreCommit_good opens a si ws f hI).1
-  | rollback => exact (closeRb_inv a si f hI).1
+  | commit ws => exact (coreCommit_good opens a si ddl ws f hI).1
+  | rollback => exact (closeRb_inv a si ddl f hI).1
+  | flushQuery ws lock => exact autoFlush_good opens a lock ws .read f hI (Or.inl rfl)
+  | flushDirect ws e w =>
+    have := hO e hwf
+    exact autoFlush_good opens a (opens e) ws (.write w) f hI (Or.inr ⟨⟨w, rfl⟩, this⟩)
 
-theorem runBody_good (opens : Entry → Bool) (hO : ∀ e, e.direct = true → opens e = true) (si : Bool)
+theorem runBody_good (opens : Entry → Bool) (hO : ∀ e, e.direct = true → opens e = true) (si ddl : Bool)
     (prog : List (Op × Bool)) : ∀ (a : A) (f : Nat → Bool), Inv a → (∀ p ∈ prog, p.1.wf = true) →
-    Good a (runBody opens true si a prog f) := by
+    Good a (runBody opens true si ddl a prog f) := by
   induction prog with
   | nil => intro a f hI _; exact ⟨by simp [runBody, runL], hI⟩
   | cons p rest ih =>
     intro a f hI hwf
     obtain ⟨op, caught⟩ := p
-    have h1 := runOp_good opens hO si a op f hI (hwf (op, caught) (by simp))
+    have h1 := runOp_good opens hO si ddl a op f hI (hwf (op, caught) (by simp))
     unfold runBody
     dsimp only
     split
@@ -194,23 +304,23 @@ theorem runBody_good (opens : Entry → Bool) (hO : ∀ e, e.direct = true → o
     · exact good_seq h1 (ih _ _ h1.2 (fun q hq => hwf q (by simp [hq])))
 
 /-- a whole `db_session`: a word of L that ends with no transaction open -/
-theorem session_good (opens : Entry → Bool) (hO : ∀ e, e.direct = true → opens e = true) (si : Bool) (a : A)
+theorem session_good (opens : Entry → Bool) (hO : ∀ e, e.direct = true → opens e = true) (si ddl : Bool) (a : A)
     (prog : List (Op × Bool)) (br : Bool) (f : Nat → Bool) (hI : Inv a) (hwf : ∀ p ∈ prog, p.1.wf = true) :
-    Good a (session opens true si a prog br f) ∧ (session opens true si a prog br f).a.inTx = false := by
-  have h1 := runBody_good opens hO si prog a f hI hwf
+    Good a (session opens true si ddl a prog br f) ∧ (session opens true si ddl a prog br f).a.inTx = false := by
+  have h1 := runBody_good opens hO si ddl prog a f hI hwf
   unfold session
   dsimp only
   split
-  · have h2 := closeRb_inv (runBody opens true si a prog f).a si (fun k => f (k + (runBody opens true si a prog f).used)) h1.2
+  · have h2 := closeRb_inv (runBody opens true si ddl a prog f).a si ddl (fun k => f (k + (runBody opens true si ddl a prog f).used)) h1.2
     exact ⟨good_seq h1 h2.1, h2.2.1⟩
-  · have h2 := coreCommit_good opens (runBody opens true si a prog f).a si [] (fun k => f (k + (runBody opens true si a prog f).used)) h1.2
+  · have h2 := coreCommit_good opens (runBody opens true si ddl a prog f).a si ddl [] (fun k => f (k + (runBody opens true si ddl a prog f).used)) h1.2
     have h12 := good_seq h1 h2.1
     split
     · exact ⟨h12, h2.2⟩
-    · have h3 := release_good _ si (fun k => f (k + (runBody opens true si a prog f).used +
-        (coreCommit opens true (runBody opens true si a prog f).a si [] (fun k => f (k + (runBody opens true si a prog f).used))).used)) h2.1.2 h2.2
+    · have h3 := release_good _ si ddl (fun k => f (k + (runBody opens true si ddl a prog f).used +
+        (coreCommit opens true (runBody opens true si ddl a prog f).a si ddl [] (fun k => f (k + (runBody opens true si ddl a prog f).used))).used)) h2.1.2 h2.2
       refine ⟨⟨?_, h3.2⟩, ?_⟩
       · rw [runL_append, h12.1]; simpa using h3.1
-      · unfold release; dsimp only; split <;> (try split) <;> rfl
+      · unfold release; dsimp only; split <;> (try split) <;> (try split) <;> rfl
 
 end PonyVerif.Lemmas.TxnEmit
